@@ -101,7 +101,7 @@ def s_segment_rows(draw, n, dmin=0.3, dmax=2.0):
     q = math.cosh(d) * p + math.sinh(d) * w
     lam = draw(fl(0.5, 2.0))
     s1 = draw(st.sampled_from([1.0, -1.0]))
-    s2 = draw(st.sampled_from([1.0, 1.0, -1.0]))
+    s2 = draw(st.sampled_from([1.0, -1.0]))
     return [(s1 * lam * p).tolist(), (s2 * lam * q).tolist()]
 
 
